@@ -9,6 +9,7 @@ import (
 
 	"verif/gen"
 	"verif/mut"
+	"verif/ref/sem"
 	"verif/ref/typing"
 	"verif/sup"
 )
@@ -75,3 +76,48 @@ func devTc(pool *sup.Pool, args []string) int {
 }
 
 func init() { devCmds["tc"] = devTc }
+
+// devStress: run one program file n times in the given mode over the whole configuration
+// matrix and report the distinct outcomes (multiset, completion, what is left alive).
+func devStress(pool *sup.Pool, args []string) int {
+	b, err := os.ReadFile(args[0])
+	if err != nil {
+		fmt.Println(err)
+		return 2
+	}
+	mode, n := args[1], 200
+	if len(args) > 2 {
+		n, _ = strconv.Atoi(args[2])
+	}
+	pc := &progCase{ID: "file", Text: string(b)}
+	var jobs []sup.Job
+	var cfgs []runCfg
+	for k := 0; k < n; k++ {
+		cfg := cfgFor(int64(k), k, k, []string{mode})
+		cfgs = append(cfgs, cfg)
+		jobs = append(jobs, jobFor(pc, cfg, uint64(k), 5000000))
+	}
+	seen := map[string]int{}
+	first := map[string]string{}
+	for i, o := range pool.Run(jobs, nil) {
+		key := "no result"
+		if o.Died() {
+			key = "died: " + normDeath(o.Deaths[0])
+		} else if o.Res != nil && o.Res.Run != nil {
+			r := o.Res.Run
+			key = fmt.Sprintf("ms=%s live=%v premature=%v watchdog=%v overrun=%v", sem.MS(r.Stdout), liveStrings(r.Live), r.Premature, r.Watchdog, r.Overrun)
+		} else if o.Res != nil {
+			key = fmt.Sprintf("parse=%v tc=%v %s", o.Res.ParseOK, o.Res.TcOK, o.Res.TcErr)
+		}
+		seen[key]++
+		if _, ok := first[key]; !ok {
+			first[key] = cfgs[i].String()
+		}
+	}
+	for k, v := range seen {
+		fmt.Printf("%5d x %s   (first: %s)\n", v, k, first[k])
+	}
+	return 0
+}
+
+func init() { devCmds["stress"] = devStress }
